@@ -639,6 +639,7 @@ func genSizeSwitches(c *core.Ctx, rule string) {
 	p := c.P
 	// ---- R3.3 generated encoders
 	nFiles, nSw := 0, 0
+	nTypeConst := 0
 	for _, pk := range p.All {
 		for i, fname := range pk.CompiledGoFiles {
 			if !strings.HasSuffix(fname, "zz_generated.go") || i >= len(pk.Syntax) {
@@ -690,11 +691,22 @@ func genSizeSwitches(c *core.Ctx, rule string) {
 					return true
 				})
 				genSubjects[rel+":"+recv+"."+fd.Name.Name] = perSubject
+				// constants written as a TLV number (the type numbers of the fields): the
+				// first byte and the cursor step agree with the canonical width of the
+				// number — 1 byte only up to 0xfc, 0xfd+2, 0xfe+4, 0xff+8
+				if fd.Name.Name == "EncodeInto" {
+					nT, badT := constTLNumWrites(pk, fd)
+					nTypeConst += nT
+					if badT != "" {
+						c.Viol(rule, fmt.Sprintf("type-number-width:%s:%s", rel, recv), p.Pos(fd.Pos()), "generated encoder writes a constant TLV number with a non-canonical width: "+badT+" — every decoder reads something else (a first byte of 253..255 announces a longer number)")
+					}
+				}
 			}
 		}
 	}
 	c.Floor(rule, "generated files", nFiles, 11)
 	c.Floor(rule, "size switches in generated encoders", nSw, 300)
+	c.Floor(rule, "constant TLV numbers written by generated encoders", nTypeConst, 200)
 	// twin agreement Init ↔ EncodeInto
 	var keys []string
 	for k := range genSubjects {
@@ -758,4 +770,103 @@ func usesPhi(v ssa.Value, phi *ssa.Phi, seen map[*ssa.Phi]bool) bool {
 		}
 	}
 	return false
+}
+
+// constTLNumWrites scans the statement lists of a generated EncodeInto for
+// `buf[pos] = <const>` followed by the cursor step `pos += W` (with an optional
+// binary.BigEndian.PutUintN(buf[pos+1:], <const>) in between) and checks the width.
+func constTLNumWrites(pk *packages.Package, fd *ast.FuncDecl) (n int, bad string) {
+	constOf := func(e ast.Expr) (uint64, bool) {
+		tv, ok := pk.TypesInfo.Types[e]
+		if !ok || tv.Value == nil {
+			return 0, false
+		}
+		v, exact := constant.Uint64Val(constant.ToInt(tv.Value))
+		return v, exact
+	}
+	isBufPos := func(e ast.Expr) bool {
+		ix, ok := e.(*ast.IndexExpr)
+		if !ok {
+			return false
+		}
+		x, ok1 := ix.X.(*ast.Ident)
+		i, ok2 := ix.Index.(*ast.Ident)
+		return ok1 && ok2 && x.Name == "buf" && i.Name == "pos"
+	}
+	check := func(list []ast.Stmt) {
+		for i, st := range list {
+			as, ok := st.(*ast.AssignStmt)
+			if !ok || as.Tok != token.ASSIGN || len(as.Lhs) != 1 || len(as.Rhs) != 1 || !isBufPos(as.Lhs[0]) {
+				continue
+			}
+			first, isC := constOf(as.Rhs[0])
+			if !isC {
+				continue
+			}
+			// what follows
+			var put uint64
+			putBits := 0
+			step := uint64(0)
+			variable := false
+			for j := i + 1; j < len(list) && j <= i+2; j++ {
+				switch x := list[j].(type) {
+				case *ast.ExprStmt:
+					if cl, ok := x.X.(*ast.CallExpr); ok && len(cl.Args) == 2 {
+						if sel, ok := cl.Fun.(*ast.SelectorExpr); ok && strings.HasPrefix(sel.Sel.Name, "PutUint") {
+							fmt.Sscanf(strings.TrimPrefix(sel.Sel.Name, "PutUint"), "%d", &putBits)
+							var isK bool
+							put, isK = constOf(cl.Args[1])
+							if !isK {
+								variable = true // a length written by a size switch, not a constant
+							}
+						}
+					}
+				case *ast.AssignStmt:
+					if x.Tok == token.ADD_ASSIGN && len(x.Lhs) == 1 && len(x.Rhs) == 1 {
+						if id, ok := x.Lhs[0].(*ast.Ident); ok && id.Name == "pos" {
+							step, _ = constOf(x.Rhs[0])
+						}
+					}
+				}
+				if step != 0 {
+					break
+				}
+			}
+			// a TLV number written from a constant: first byte directly followed by the step
+			// (1-byte form), or by a PutUintN of a constant and then the step
+			if step == 0 || variable || (putBits == 0 && step != 1) {
+				continue
+			}
+			if putBits == 0 {
+				if _, direct := list[i+1].(*ast.AssignStmt); !direct {
+					continue
+				}
+			}
+			n++
+			ok2 := false
+			switch step {
+			case 1:
+				ok2 = first <= 0xfc && putBits == 0
+			case 3:
+				ok2 = first == 0xfd && putBits == 16 && put > 0xfc && put <= 0xffff
+			case 5:
+				ok2 = first == 0xfe && putBits == 32 && put > 0xffff && put <= 0xffffffff
+			case 9:
+				ok2 = first == 0xff && putBits == 64 && put > 0xffffffff
+			}
+			if !ok2 && bad == "" {
+				bad = fmt.Sprintf("first byte %d, %d-bit tail %d, cursor step %d", first, putBits, put, step)
+			}
+		}
+	}
+	ast.Inspect(fd.Body, func(nd ast.Node) bool {
+		switch x := nd.(type) {
+		case *ast.BlockStmt:
+			check(x.List)
+		case *ast.CaseClause:
+			check(x.Body)
+		}
+		return true
+	})
+	return n, bad
 }
